@@ -361,6 +361,7 @@ func init() {
 			checkC18Values(c, budget(c.Tier, 400, 20000))
 			checkC18IgnoredCluster(c, budget(c.Tier, 200, 5000))
 			checkC18OuterWord(c, budget(c.Tier, 150, 4000))
+			checkC18Shadowed(c, budget(c.Tier, 120, 3000))
 		}}
 }
 
